@@ -175,6 +175,18 @@ def directed_mwem_alpha(res, r, seed):
             one_pair(res, 'mwem', dom, rows, rows2, params, seed * 1000 + 700, 'directed-alpha')
 
 
+def directed_pure_dp(res, r, seed):
+    """delta = 0 (adagrid's docstring: "set delta to 0 if pure DP is required"; mwem_pgm's default): a mechanism that adds Gaussian noise
+    must not produce output - no zCDP budget rho > 0 is (eps, 0)-DP, so whatever it releases is charged against a budget of 0"""
+    dom = DOMS[1]
+    rows = gen_rows(r, dom, 40)
+    rows2 = neighbour(r, dom, rows, False, True)
+    for name, extra in (('mst', {}), ('adagrid', {'threshold': 5.0, 'targets': [], 'split_strategy': None}),
+                        ('mwem', {'rounds': 2, 'workload': [['a', 'b'], ['b', 'c']], 'noise': 'gaussian', 'bounded': False, 'alpha': 0.9}),
+                        ('aim', {'rounds': 6, 'workload': [['a', 'b'], ['c', 'd']], 'prng': False})):
+        one_pair(res, name, dom, rows, rows2, dict({'epsilon': 1.0, 'delta': 0.0}, **extra), seed * 1000 + 800, 'directed-delta-0')
+
+
 def directed_aim(res, r, seed):
     """AIM's selection sensitivity is the largest weight among the CURRENT candidates of the CURRENT run: (i) a call history on one
     mechanism object (a light workload first, then all pairs), (ii) a size limit that binds, so that the candidate set grows from round
@@ -187,6 +199,9 @@ def directed_aim(res, r, seed):
     rows2 = neighbour(r, dom, rows, False, True)
     base = {'epsilon': 1.0, 'delta': 1e-6, 'rounds': 8, 'prng': False}
     for k, extra in enumerate((
+            # a workload that does not mention every attribute, few rounds: every release made must be one that is paid for
+            {'workload': [pairs[0]], 'rounds': 4},
+            {'workload': [[attrs[0], attrs[1]], [attrs[0], attrs[2]]], 'rounds': 4},
             {'workload': pairs, 'first_workload': [[attrs[0]]]},
             {'workload': pairs, 'max_model_size': sum(s for _, s in dom) * 8 / 2 ** 20 * 3.0, 'weights': [3.0, 1.0, 1.0, 2.0, 1.0, 1.0]},
             {'workload': pairs[:4], 'weights': [0.5, 3.0, 1.0, 2.0], 'first_workload': [pairs[5]]})):
@@ -309,6 +324,7 @@ def run(res, drv, tier, seed):
     directed_adagrid_targets(res, r, seed)
     directed_aim(res, rng(seed, 'C05-aim'), seed)
     directed_mwem_alpha(res, rng(seed, 'C05-alpha'), seed)
+    directed_pure_dp(res, rng(seed, 'C05-delta0'), seed)
     adagrid_queries(res, drv, r, seed, tier)
     # the region excluded by aim_budget's hypothesis, on the real code
     dom = DOMS[1]
